@@ -6,6 +6,17 @@ import numpy as np
 from scipy.interpolate import RegularGridInterpolator
 
 
+def cell_volume(xs):
+    """volumes of the cells of the grid, shape (len(x0)-1, len(x1)-1, ...)"""
+    n_dim = len(xs)
+    vol = 1.0
+    for i, x in enumerate(xs):
+        shape = [1] * n_dim
+        shape[i] = -1
+        vol = vol * np.diff(x).reshape(shape)
+    return vol
+
+
 class InterpND:
     def __init__(self, xs, z, indexing="ij"):
         self.indexing = indexing
@@ -75,7 +86,9 @@ class InterpND:
             tmp = self.z.__getitem__(j)
             # print(self.int_all[i], self.z, j, tmp)
             self.int_all[i] = tmp
-        self.int_all = self.int_all / (2**self.n_dim)
+        # integral of the multilinear interpolant over a cell:
+        # (mean of the corner values) * (cell volume)
+        self.int_all = self.int_all / (2**self.n_dim) * cell_volume(self.xs)
         self.int_step = np.cumsum(self.int_all.flatten())
 
     def generate(self, N):
@@ -145,7 +158,9 @@ class InterpNDHist:
         self.n_bins = 1
         for i in self.xs:
             self.n_bins *= i.shape[0] - 1
-        self.int_step = np.cumsum(self.coeffs.flatten())
+        self.int_step = np.cumsum(
+            (self.coeffs * cell_volume(self.xs)).flatten()
+        )
 
     def generate(self, N):
         x = np.random.random((N, self.n_dim))
